@@ -87,115 +87,135 @@ def revert_variants(prop):
     return out
 
 
+def _worker(task):
+    """One variant in a process of its own: (label, kind, payload) -> summary of the property's verdict on it."""
+    import importlib
+    prop, label, kind, payload = task
+    propmod = importlib.import_module(f'rules.{prop.lower()}')
+    tmp = None
+    try:
+        if kind == 'overlay':
+            an = _overlay_analysis(payload)
+        else:
+            diff, reverse = payload
+            tmp = _scratch_tree()
+            if not _apply_patch(tmp, diff, reverse):
+                return {'label': label, 'applied': False}
+            an = report.Analysis(root=tmp)
+        code, ctx, new, hits = _run(propmod, an)
+        return {'label': label, 'applied': True, 'analysis_error': None,
+                'new': [(i.key(prop), i.rule, i.construct, i.why[:160]) for i in new],
+                'errors': list(ctx.errors), 'hits': len(hits), 'instances': len(ctx.instances)}
+    except AnalysisError as exc:
+        return {'label': label, 'applied': True, 'analysis_error': str(exc), 'new': [], 'errors': [], 'hits': 0, 'instances': 0}
+    finally:
+        if tmp is not None:
+            shutil.rmtree(tmp, ignore_errors=True)
+
+
+def _run_all(tasks):
+    import multiprocessing
+    if not tasks:
+        return {}
+    jobs = max(1, min(14, (os.cpu_count() or 2) - 1, len(tasks)))
+    if jobs == 1:
+        results = [_worker(t) for t in tasks]
+    else:
+        with multiprocessing.get_context('fork').Pool(jobs) as pool:
+            results = pool.map(_worker, tasks, chunksize=1)
+    return {r['label']: r for r in results}
+
+
 def validate(prop, propmod, analysis):
-    """Returns (extra evidence dict, list of error strings)."""
+    """Returns (extra evidence dict, list of error strings). Every variant is analysed in a worker process (the checks may use all cores)."""
     errors = []
     base_code, base_ctx, base_new, base_hits = _run(propmod, analysis)
-    base_known = {h[0].key(prop) for h in base_hits}
+    base_new_keys = {b.key(prop) for b in base_new}
     sources = analysis.repo.sources()
+    tasks = []
+    equiv_order, kill_order = [], []
+    skipped = {}
     # ---- equivalence corpus -------------------------------------------------------------
-    equiv = []
     for name, fn in transforms.ALL:
+        label = f'transform {name}'
         try:
             new_sources = fn(dict(sources))
         except transforms.NotApplicable as exc:
-            equiv.append({'transform': name, 'result': f'skipped: {exc}'})
+            skipped[label] = f'skipped: {exc}'
+            equiv_order.append((label, name))
             continue
-        try:
-            an = _overlay_analysis(new_sources)
-            code, ctx, new, hits = _run(propmod, an)
-        except AnalysisError as exc:
-            errors.append(f'equivalence transform "{name}": analysis failed: {exc}')
-            continue
-        res = 'stable'
-        if new and not base_new:
-            res = f'FALSE ALARM: {new[0].rule} [{new[0].construct}]'
-            errors.append(f'equivalence transform "{name}" changes the verdict: new violation {new[0].rule} [{new[0].construct}] {new[0].why[:120]}')
-        elif ctx.errors and not base_ctx.errors:
-            res = f'ANALYSIS ERROR: {ctx.errors[0][:100]}'
-            errors.append(f'equivalence transform "{name}" makes the analysis give up: {ctx.errors[0][:160]}')
-        elif len(hits) != len(base_hits):
-            res = f'known findings matched {len(hits)} vs {len(base_hits)}'
-            if len(hits) < len(base_hits):
-                errors.append(f'equivalence transform "{name}": {len(base_hits) - len(hits)} known finding(s) no longer matched')
-        equiv.append({'transform': name, 'result': res, 'instances': len(ctx.instances)})
-    # ---- refactoring corpus: independent behaviour-preserving refactorings kept under /verif/refactorings ----------
+        tasks.append((prop, label, 'overlay', new_sources))
+        equiv_order.append((label, name))
     rdir = os.path.join(VERIF, 'refactorings')
     if os.path.isdir(rdir):
         for name in sorted(os.listdir(rdir)):
             patch_p = os.path.join(rdir, name, 'patch.diff')
             if not os.path.exists(patch_p):
                 continue
-            tmp = _scratch_tree()
-            try:
-                if not _apply_patch(tmp, open(patch_p).read()):
-                    equiv.append({'transform': f'refactoring {name}', 'result': 'skipped: does not apply to the current tree'})
-                    continue
-                an = report.Analysis(root=tmp)
-                code, ctx, new, hits = _run(propmod, an)
-            except AnalysisError as exc:
-                errors.append(f'refactoring {name}: analysis failed: {exc}')
-                continue
-            finally:
-                shutil.rmtree(tmp, ignore_errors=True)
-            res = 'stable'
-            fresh = [i for i in new if i.key(prop) not in {b.key(prop) for b in base_new}]
-            if fresh:
-                res = f'FALSE ALARM: {fresh[0].rule} [{fresh[0].construct}]'
-                errors.append(f'refactoring {name} (behaviour-preserving) is reported: {fresh[0].rule} [{fresh[0].construct}] {fresh[0].why[:120]}')
-            elif ctx.errors and not base_ctx.errors:
-                res = f'ANALYSIS ERROR: {ctx.errors[0][:100]}'
-                errors.append(f'refactoring {name} (behaviour-preserving) makes the analysis give up: {ctx.errors[0][:160]}')
-            elif len(hits) < len(base_hits):
-                res = f'known findings matched {len(hits)} vs {len(base_hits)}'
-                errors.append(f'refactoring {name}: {len(base_hits) - len(hits)} known finding(s) no longer matched')
-            equiv.append({'transform': f'refactoring {name}', 'result': res, 'instances': len(ctx.instances)})
+            label = f'refactoring {name}'
+            tasks.append((prop, label, 'patch', (open(patch_p).read(), False)))
+            equiv_order.append((label, label))
     # ---- sensitivity corpus -------------------------------------------------------------
-    kills = []
-    variants = seed_variants(prop) + revert_variants(prop)
-    for label, diff, reverse in variants:
-        tmp = _scratch_tree()
-        try:
-            if not _apply_patch(tmp, diff, reverse):
-                kills.append({'variant': label, 'result': 'skipped: does not apply to the current tree'})
-                continue
-            an = report.Analysis(root=tmp)
-            code, ctx, new, hits = _run(propmod, an)
-        except AnalysisError as exc:
-            kills.append({'variant': label, 'result': f'analysis error: {exc}'})
-            errors.append(f'{label}: analysis failed instead of reporting: {exc}')
-            continue
-        finally:
-            shutil.rmtree(tmp, ignore_errors=True)
-        fresh = [i for i in new if i.key(prop) not in {b.key(prop) for b in base_new}]
-        if fresh:
-            kills.append({'variant': label, 'result': 'reported', 'by': sorted({i.rule for i in fresh}),
-                          'construct': fresh[0].construct})
-        else:
-            kills.append({'variant': label, 'result': 'INSENSITIVE'})
-            errors.append(f'{label} is not reported by the rules of {prop}: the check lost sensitivity')
+    for label, diff, reverse in seed_variants(prop) + revert_variants(prop):
+        tasks.append((prop, label, 'patch', (diff, reverse)))
+        kill_order.append(label)
     for label, fn in mutants.for_property(prop):
+        mlabel = f'mutant {label}'
         try:
             new_sources = fn(dict(sources))
         except mutants.NotApplicable as exc:
-            kills.append({'variant': f'mutant {label}', 'result': f'skipped: {exc}'})
+            skipped[mlabel] = f'skipped: {exc}'
+            kill_order.append(mlabel)
             continue
-        try:
-            an = _overlay_analysis(new_sources)
-            code, ctx, new, hits = _run(propmod, an)
-        except AnalysisError as exc:
-            kills.append({'variant': f'mutant {label}', 'result': f'analysis error: {exc}'})
-            errors.append(f'mutant {label}: analysis failed instead of reporting: {exc}')
+        tasks.append((prop, mlabel, 'overlay', new_sources))
+        kill_order.append(mlabel)
+    results = _run_all(tasks)
+    equiv = []
+    for label, shown in equiv_order:
+        if label in skipped:
+            equiv.append({'transform': shown, 'result': skipped[label]})
             continue
-        fresh = [i for i in new if i.key(prop) not in {b.key(prop) for b in base_new}]
+        r = results[label]
+        if not r['applied']:
+            equiv.append({'transform': shown, 'result': 'skipped: does not apply to the current tree'})
+            continue
+        if r['analysis_error']:
+            errors.append(f'{label}: analysis failed: {r["analysis_error"]}')
+            continue
+        fresh = [n for n in r['new'] if n[0] not in base_new_keys]
+        res = 'stable'
         if fresh:
-            kills.append({'variant': f'mutant {label}', 'result': 'reported', 'by': sorted({i.rule for i in fresh})})
-        elif ctx.errors:
-            kills.append({'variant': f'mutant {label}', 'result': f'analysis error only: {ctx.errors[0][:80]}'})
-            errors.append(f'mutant {label}: only an analysis error, no violation: {ctx.errors[0][:120]}')
+            res = f'FALSE ALARM: {fresh[0][1]} [{fresh[0][2]}]'
+            errors.append(f'{label} (behaviour-preserving) is reported: {fresh[0][1]} [{fresh[0][2]}] {fresh[0][3][:120]}')
+        elif r['errors'] and not base_ctx.errors:
+            res = f'ANALYSIS ERROR: {r["errors"][0][:100]}'
+            errors.append(f'{label} (behaviour-preserving) makes the analysis give up: {r["errors"][0][:160]}')
+        elif r['hits'] < len(base_hits):
+            res = f'known findings matched {r["hits"]} vs {len(base_hits)}'
+            errors.append(f'{label}: {len(base_hits) - r["hits"]} known finding(s) no longer matched')
+        equiv.append({'transform': shown, 'result': res, 'instances': r['instances']})
+    kills = []
+    for label in kill_order:
+        if label in skipped:
+            kills.append({'variant': label, 'result': skipped[label]})
+            continue
+        r = results[label]
+        if not r['applied']:
+            kills.append({'variant': label, 'result': 'skipped: does not apply to the current tree'})
+            continue
+        if r['analysis_error']:
+            kills.append({'variant': label, 'result': f'analysis error: {r["analysis_error"]}'})
+            errors.append(f'{label}: analysis failed instead of reporting: {r["analysis_error"]}')
+            continue
+        fresh = [n for n in r['new'] if n[0] not in base_new_keys]
+        if fresh:
+            kills.append({'variant': label, 'result': 'reported', 'by': sorted({n[1] for n in fresh}), 'construct': fresh[0][2]})
+        elif r['errors'] and label.startswith('mutant '):
+            kills.append({'variant': label, 'result': f'analysis error only: {r["errors"][0][:80]}'})
+            errors.append(f'{label}: only an analysis error, no violation: {r["errors"][0][:120]}')
         else:
-            kills.append({'variant': f'mutant {label}', 'result': 'INSENSITIVE'})
-            errors.append(f'mutant {label} is not reported by the rules of {prop}: the check lost sensitivity')
+            kills.append({'variant': label, 'result': 'INSENSITIVE'})
+            errors.append(f'{label} is not reported by the rules of {prop}: the check lost sensitivity')
     extra = {
         'selftest': {
             'equivalence_transforms': equiv,
